@@ -345,6 +345,13 @@ class FreeEnergy(InterpolatableFunction):
                 TEnd,
                 **scipyKwargs,
             )
+            if phaseTracerFirstStep is None:
+                # scipy's choice of the first step falls back on absolute numbers
+                # (1e-6) when the fields or their derivative vanish, as they do in a
+                # symmetric phase. In large units the table would then start with
+                # nodes so close to T0 that the spline's derivatives there are
+                # rounding noise. Do not start below a fraction of the maximal step.
+                ode.h_abs = max(ode.h_abs, 1e-3 * dT)
             while ode.status == "running":
                 try:
                     ode.step()
